@@ -73,7 +73,7 @@ def main():
     dst = os.path.join(ROOT, "seeded", sid)
     os.makedirs(dst, exist_ok=True)
     for fn in ("patch.diff", "demo.rs", "notes.md"):
-        if os.path.exists(os.path.join(src, fn)):
+        if os.path.exists(os.path.join(src, fn)) and os.path.abspath(os.path.join(src, fn)) != os.path.abspath(os.path.join(dst, fn)):
             shutil.copy(os.path.join(src, fn), os.path.join(dst, fn))
     try:
         notes = open(os.path.join(src, "notes.md")).read()
